@@ -130,6 +130,19 @@ def core_configs():
   ]
 
 
+# parameter names whose alphabetical order is NOT the declaration order (the feature columns follow the
+# declaration; anything that lists the parameters by name must still attach sizes to the right columns)
+_CNAMES = ['opt', 'act', 'zz', 'bn', 'm', 'k']
+
+
+def cname(j):
+  return _CNAMES[j] if j < len(_CNAMES) else 'q%d' % j
+
+
+def xname(i):
+  return 'x%d' % ((3 * i + 2) % 7) if i < 7 else 'x%d' % i
+
+
 def gen_config(rng):
   while True:
     nc = rng.randrange(0, 6)
@@ -164,9 +177,9 @@ class Runner(object):
     self.rec = {'score': [], 'proj': []}
     problem = vz.ProblemStatement(metric_information=[vz.MetricInformation(name='obj', goal=vz.ObjectiveMetricGoal.MAXIMIZE)])
     for i in range(cfg.nc):
-      problem.search_space.root.add_float_param('x%d' % i, 0.0, 10.0)
+      problem.search_space.root.add_float_param(xname(i), 0.0, 10.0)
     for j, a in enumerate(cfg.ar):
-      problem.search_space.root.add_categorical_param('c%d' % j, [str(v) for v in range(a)])
+      problem.search_space.root.add_categorical_param(cname(j), [str(v) for v in range(a)])
     ptype = {None: padding.PaddingType.NONE, 'pow2': padding.PaddingType.POWERS_OF_2,
              'mult10': padding.PaddingType.MULTIPLES_OF_10}[cfg.pad]
     sched = padding.PaddingSchedule(num_trials=ptype, num_features=ptype)
@@ -310,8 +323,8 @@ class Runner(object):
     E = env()
     trials = []
     for pt in pts:
-      d = {'x%d' % i: 10.0 * v for i, v in enumerate(pt['c'])}
-      d.update({'c%d' % j: str(v) for j, v in enumerate(pt['k'])})
+      d = {xname(i): 10.0 * v for i, v in enumerate(pt['c'])}
+      d.update({cname(j): str(v) for j, v in enumerate(pt['k'])})
       trials.append(E['vz'].Trial(parameters=d))
     return self.conv.to_features(trials)
 
@@ -421,7 +434,7 @@ def identify_variants(c):
   params, _ = r.gen_params(rng, 'peak')
   params['peak_c'] = np.array([0.3, 0.7], dtype=r.fdtype)
   E = env()
-  pf = r.conv.to_features([E['vz'].Trial(parameters={'x0': 3.0, 'x1': 7.0})])
+  pf = r.conv.to_features([E['vz'].Trial(parameters={xname(0): 3.0, xname(1): 7.0})])
   out = r.run(7, params, pf)
   if 'error' in out:
     raise core.InfraError('witness run failed: %r' % (out['error'],))
@@ -549,6 +562,8 @@ def judge_jobs(c, ci, runner, jobs, state):
     zf = {'c': [fkey1(0.0, runner.fdtype)] * runner.ncp, 'k': [0] * runner.nkp, 'r': ph}
     top_reqs.append({'op': 'istopk', 'count': cfg.count, 'all': allv + [zf] * cfg.count, 'res': result_entries(out)})
   tops = c.lean('C19', top_reqs)
+  if os.environ.get('C19_DEBUG'):
+    json.dump(top_reqs, open('/tmp/c19_top.json', 'w'))
   checks = c.lean('C19', chk_reqs)
   projs = c.lean('C19', proj_reqs) if proj_reqs else []
   for (case, post), m in zip(proj_real, projs):
@@ -755,7 +770,7 @@ def production_jit_stage(c):
       problem = vz.ProblemStatement(metric_information=[vz.MetricInformation(name='obj', goal=vz.ObjectiveMetricGoal.MAXIMIZE)])
       problem.search_space.root.add_float_param('x', 0.0, 1.0)
       for j, a in enumerate(ar):
-        problem.search_space.root.add_categorical_param('c%d' % j, [str(v) for v in range(a)])
+        problem.search_space.root.add_categorical_param(cname(j), [str(v) for v in range(a)])
       conv = E['converters'].TrialToModelInputConverter.from_problem(problem)
       opt = vb.VectorizedOptimizerFactory(strategy_factory=es.VectorizedEagleStrategyFactory(), max_evaluations=60, suggestion_batch_size=10)(conv)
       res = eqx.filter_jit(opt)(score, count=4, seed=jax.random.PRNGKey(3))
@@ -849,8 +864,8 @@ def to_trials_stage(c):
           continue
 
         def row_params(i, j):
-          d = {'x%d' % t: 10.0 * float(cont[i, j, t]) for t in range(nc)}
-          d.update({'c%d' % t: str(int(cat[i, j, t])) for t in range(len(ar))})
+          d = {xname(t): 10.0 * float(cont[i, j, t]) for t in range(nc)}
+          d.update({cname(t): str(int(cat[i, j, t])) for t in range(len(ar))})
           return d
 
         def tkey(d, rw):
